@@ -8,6 +8,7 @@ CONSTANTS
   Lims = {0, 1, 2}
   NodeCounts = {1}
   LockKeys = {"issuer"}
+  Variants = {}
   FixedKinds = {"conncap", "maplimit", "maplive", "codequota", "mapquota"}
   WithRelease = TRUE
   Emit = FALSE
